@@ -1098,7 +1098,7 @@ class Unit:
             st = ln.strip()
             if not st.startswith("//@"):
                 org = {"kind": "tpl", "tpl": f"{rel}:{i + 1}"}
-                if depth == 0 and st == "verus! {" and not getattr(self, "_vac_decl", False):
+                if self.vacuity and depth == 0 and st == "verus! {" and not getattr(self, "_vac_decl", False):
                     # used only by the vacuity run: every `assert(false)` probe sits under its own arbitrary condition, so that a
                     # probe that fails (as it must) does not make the code after it unreachable for the next probe
                     self._vac_decl = True
